@@ -61,7 +61,8 @@ struct SpectraVerifAccess {
 };
 
 // ------------------------------------------------------------------ cases
-static const char* KN[] = {"spd", "indefinite", "zerodiag", "blockdiag", "graded", "integer", "exact-singular", "shift-diag", "tridiag-2x2", "corpus", "pivot-pattern", "tie"};
+static const char* KN[] = {"spd", "indefinite", "zerodiag", "blockdiag", "graded", "integer", "exact-singular", "shift-diag", "tridiag-2x2", "corpus", "pivot-pattern", "tie", "dominant-entry"};
+static const long DOMINANT_BASE = 2000000;    // idx >= DOMINANT_BASE: gen_dominant (kind 12)
 static const long SPECIAL_BASE = 1000000;     // idx >= SPECIAL_BASE: gen_special (kinds 10, 11)
 struct Case {
     int kind = 0, n = 1; double shift = 0; long idx = 0;
@@ -148,7 +149,33 @@ static Case gen_special(uint64_t seed, long j, bool thorough) {
     return c;
 }
 
+// kind 12 "dominant-entry": the pivot tests compare |a_kk|, lambda = max|column k|, sigma = max|column r| (r = row of lambda).  Here the candidate
+// column r holds ONE entry that dominates everything else by 10^3..10^10, at a prescribed row p (the last row in half of the cases, else
+// the first eligible or a random one), the diagonal entry a_kk is zero or tiny, and a_rr is O(1): the correct choice is the 2x2 pivot
+// {k, r}; a scan of column r that misses row p takes a_rr as a 1x1 pivot and the multipliers are of the size of the dominant entry.
+static Case gen_dominant(uint64_t seed, long j, bool thorough) {
+    Rng r(seed, 17, (uint64_t) j); Case c; c.idx = DOMINANT_BASE + j; c.kind = 12;
+    int n = thorough ? (r.coin(0.6) ? r.range(3, 12) : r.range(13, 60)) : (r.coin(0.6) ? r.range(3, 8) : r.range(9, 20));
+    c.n = n; c.re.assign((size_t) n * n, 0.0); c.im.assign((size_t) n * n, 0.0);
+    auto sgn = [&]() { return r.coin() ? 1.0 : -1.0; };
+    const double cpl = r.coin(0.5) ? 0.3 : 0.05;
+    for (int i = 0; i < n; i++) for (int q = 0; q <= i; q++) c.sym(i, q, cpl * r.sym() + (i == q ? sgn() * (0.5 + r.unit()) : 0.0), i == q ? 0.0 : cpl * r.sym());
+    const int k = 0; const int rr = r.range(1, n - 1);
+    c.sym(k, k, r.coin(0.5) ? 0.0 : 1e-3 * r.sym(), 0);
+    c.sym(rr, k, sgn() * (1.0 + r.unit()), 0.3 * r.sym());                       // lambda, at row rr of column k
+    int p; const int w = r.range(0, 3);
+    if (w <= 1) p = n - 1; else if (w == 2) p = 1; else p = r.range(1, n - 1);
+    if (p == rr) p = (rr == n - 1) ? (n >= 3 ? n - 2 : rr) : (w == 2 && rr == 1 ? 2 : (p == rr ? rr + 1 : p));
+    if (p == rr || p == k || p >= n) p = (rr == 1) ? 2 : 1;
+    const double H = std::pow(10.0, (double) r.range(3, 10)) * (1.0 + r.unit());
+    if (p != rr && p != k && p < n) c.sym(std::max(p, rr), std::min(p, rr), sgn() * H, r.coin(0.5) ? 0.0 : 0.3 * H * r.sym());   // sigma, at row p of column rr
+    c.shift = r.coin(0.7) ? 0.0 : 0.125;
+    c.b.resize(c.n); c.bim.resize(c.n); for (auto& x : c.b) x = r.sym(); for (auto& x : c.bim) x = r.sym();
+    return c;
+}
+
 static Case gen_case(uint64_t seed, long idx, bool thorough, int force_n = -1) {
+    if (idx >= DOMINANT_BASE) return gen_dominant(seed, idx - DOMINANT_BASE, thorough);
     if (idx >= SPECIAL_BASE) return gen_special(seed, idx - SPECIAL_BASE, thorough);
     Rng r(seed, 10, (uint64_t) idx); Case c; c.idx = idx;
     c.kind = (int) (idx % 10);
@@ -233,6 +260,27 @@ template <class S, int Order> static Result<S> run_bk(const Case& c, int uplo, b
     if (r.info == 0) { Vec x = f.solve(b); r.x.assign(x.data(), x.data() + n); }
     return r;
 }
+// the same matrix handed over as a VIEW whose outer stride differs from n (BKLDLT::compute takes an Eigen::Ref): a block of a larger matrix
+// (kind 0) or a Map with an explicit outer stride (kind 1); everything outside the view is NaN, so a read through the wrong stride shows
+template <class S, int Order> static Result<S> run_bk_view(const Case& c, int uplo, int vkind) {
+    typedef Eigen::Matrix<S, Eigen::Dynamic, Eigen::Dynamic, Order> Mat; typedef Eigen::Matrix<S, Eigen::Dynamic, 1> Vec;
+    const int n = c.n; const typename Tr<S>::R nan = std::numeric_limits<typename Tr<S>::R>::quiet_NaN();
+    Result<S> r; Spectra::BKLDLT<S> f;
+    if (vkind == 0) {
+        Mat Big = Mat::Constant(n + 3, n + 2, Tr<S>::mk(nan, nan));
+        for (int i = 0; i < n; i++) for (int j = 0; j < n; j++) Big(i + 1, j + 1) = Tr<S>::mk(c.a(i, j), c.ai(i, j));
+        f.compute(Big.block(1, 1, n, n), uplo, (typename Tr<S>::R) c.shift);
+    } else {
+        const int os = n + 5; std::vector<S> buf((size_t) os * (n + 1) + 7, Tr<S>::mk(nan, nan));
+        Eigen::Map<Mat, 0, Eigen::OuterStride<>> V(buf.data() + 3, n, n, Eigen::OuterStride<>(os));
+        for (int i = 0; i < n; i++) for (int j = 0; j < n; j++) V(i, j) = Tr<S>::mk(c.a(i, j), c.ai(i, j));
+        f.compute(V, uplo, (typename Tr<S>::R) c.shift);
+    }
+    r.info = (int) f.info(); r.perm = SpectraVerifAccess::perm(f); r.data = SpectraVerifAccess::data(f);
+    Vec b(n); for (int i = 0; i < n; i++) b[i] = Tr<S>::mk(c.b[i], c.bim[i]);
+    if (r.info == 0) { Vec x = f.solve(b); r.x.assign(x.data(), x.data() + n); }
+    return r;
+}
 template <class S> static Result<S> run_cfg(const Case& c, int cfg, bool garbage) {   // cfg: bit0 = Upper, bit1 = RowMajor
     int uplo = (cfg & 1) ? Eigen::Upper : Eigen::Lower;
     return (cfg & 2) ? run_bk<S, Eigen::RowMajor>(c, uplo, garbage) : run_bk<S, Eigen::ColMajor>(c, uplo, garbage);
@@ -264,6 +312,16 @@ template <class S> static void oracle(const Case& c, uint64_t seed, const std::s
             out.fail("uplo-order-disagree", sc + ": result from " + ((cfg & 1) ? "Upper" : "Lower") + "/" + ((cfg & 2) ? "RowMajor" : "ColMajor") + (g ? " (unused triangle = NaN)" : "") + " differs from Lower/ColMajor; kind " + KN[c.kind] + " n=" + str(n), replay_json(c, seed, tier, Tr<S>::name(), cfg));
     }
     if (keep && keepcfg == 0 && !keepgarb) *keep = ref;
+    // --- the matrix handed over as a view with outer stride != n (block of a larger matrix, strided Map): bitwise the same factorization
+    if (n >= 1) for (int cfg = 0; cfg < 4; cfg++) {
+        const int vkind = (int) ((c.idx + cfg) % 2); const int uplo = (cfg & 1) ? Eigen::Upper : Eigen::Lower;
+        Result<S> o = (cfg & 2) ? run_bk_view<S, Eigen::RowMajor>(c, uplo, vkind) : run_bk_view<S, Eigen::ColMajor>(c, uplo, vkind);
+        out.count("oracle_view_" + sc);
+        const bool cmpdata = !(Tr<S>::cplx && ref.info != 0);
+        if (o.info != ref.info || o.perm != ref.perm || (cmpdata && !same_bits(o.data, ref.data)) || !same_bits(o.x, ref.x))
+            out.fail("view-disagree", sc + ": compute() on a " + (vkind == 0 ? "block of a larger matrix" : "Map with an outer stride") + " (" + ((cfg & 1) ? "Upper" : "Lower") + "/" + ((cfg & 2) ? "RowMajor" : "ColMajor") + ") differs from the same matrix passed as a plain object (info " + str(o.info) + " vs " + str(ref.info) + "); kind " + KN[c.kind] + " n=" + str(n),
+                     replay_json(c, seed, tier, Tr<S>::name(), cfg));
+    }
     out.count(std::string("info_") + sc + "_" + str(ref.info));
     // --- status
     if (ref.info != 0 && ref.info != 3) out.fail("status-other", sc + ": info() = " + str(ref.info) + " after compute (neither Successful nor NumericalIssue), kind " + KN[c.kind] + " n=" + str(n), rj);
@@ -731,6 +789,14 @@ int main(int argc, char** argv) {
         { std::ofstream lc(a.out + "/lastcase.txt"); lc << replay_json(c, a.seed, a.tier, "all", -1) << "\n"; }
         one_case(c, a.seed, a.tier, out, true);
         out.count("special_variant_" + str(j % 8));
+        if (out.nfail) out.oracle.flush();
+    }
+    const long ndominant = a.thorough() ? 1500 : 200;
+    for (long j = 0; j < ndominant; j++) {
+        Case c = gen_case(a.seed, DOMINANT_BASE + j, a.thorough());
+        { std::ofstream lc(a.out + "/lastcase.txt"); lc << replay_json(c, a.seed, a.tier, "all", -1) << "\n"; }
+        one_case(c, a.seed, a.tier, out, true);
+        out.count("dominant_cases");
         if (out.nfail) out.oracle.flush();
     }
     for (auto& kv : g_max) out.counters["max_milli_" + kv.first] = (long) std::min((LD) 1e15L, kv.second * 1000);
